@@ -17,6 +17,8 @@ import (
 	"sync"
 
 	"golang.org/x/exp/constraints"
+
+	"github.com/dapr/kit/verifhook"
 )
 
 type AtomicValue[T constraints.Integer] struct {
@@ -77,6 +79,7 @@ func (a *atomicMap[K, T]) GetOrCreate(key K, createT T) *AtomicValue[T] {
 	a.lock.RLock()
 	item, ok := a.items[key]
 	a.lock.RUnlock()
+	verifhook.Point("cmap.atomic.getorcreate.afterRead", ok)
 	if !ok {
 		a.lock.Lock()
 		// Double-check the key exists to avoid race condition
